@@ -276,6 +276,25 @@ macro_rules! opt_de_json {
     }};
 }
 
+/// the same JSON text through serde_json's other entry points: a reader (no borrowed strings)
+/// and a `Value` tree (owned keys) — a Deserialize impl must not depend on which one is used
+macro_rules! opt_de_json_alt {
+    (yes, $T:ty, $b:expr, $how:expr) => {
+        if $how == 0 {
+            serde_json::from_reader::<_, $T>($b.as_bytes()).map(|g| Box::new(W(g)) as Box<dyn Gen>).map_err(|e| e.to_string())
+        } else {
+            serde_json::from_str::<serde_json::Value>($b)
+                .and_then(serde_json::from_value::<$T>)
+                .map(|g| Box::new(W(g)) as Box<dyn Gen>)
+                .map_err(|e| e.to_string())
+        }
+    };
+    (no, $T:ty, $b:expr, $how:expr) => {{
+        let _ = ($b, $how);
+        Err("type has no serde support".to_string())
+    }};
+}
+
 macro_rules! table {
     ($( $v:ident => $T:ty, jump:$j:tt, eq:$e:tt, serde:$s:tt; )*) => {
         $(
@@ -319,6 +338,10 @@ macro_rules! table {
         }
         pub fn from_json(ty: Ty, text: &str) -> Result<Box<dyn Gen>, String> {
             match ty { $( Ty::$v => opt_de_json!($s, $T, text), )* Ty::Jitter => Err("no serde".into()) }
+        }
+        /// how = 0: serde_json::from_reader, 1: through serde_json::Value
+        pub fn from_json_alt(ty: Ty, text: &str, how: u8) -> Result<Box<dyn Gen>, String> {
+            match ty { $( Ty::$v => opt_de_json_alt!($s, $T, text, how), )* Ty::Jitter => Err("no serde".into()) }
         }
     };
 }
